@@ -12,8 +12,10 @@ capacity of a lazily adjusted limiter (starts at the initial limit; an admission
 above it raises it to the limit; an exit while it is above the limit retires one) and checks, on the
 implementation's own trace: in-flight <= largest limit so far, in-flight <= capacity, nobody waits
 while a permit is free (permits neither lost nor duplicated), admissions in arrival order, limit
-<= 0 refuses, everybody is served once the holders leave, unanswered count = received - finished.
-It knows nothing about the semaphore value, the wake-up chain or `_sem_value`."""
+<= 0 refuses - and nobody is left waiting with no holder to wait for, whatever the limit was in
+between (F23) -, everybody is served once the holders leave, unanswered count = received -
+finished.  It knows nothing about the semaphore value, the wake-up chain or any private attribute
+of `Concurrency`: permits are observed through behaviour (how many entrants get in)."""
 import asyncio
 import itertools
 import json
@@ -22,7 +24,7 @@ from multiprocessing import Pool
 
 from harness import vloop
 from harness.base import Results, corpus_lines
-from harness.lim_fake import Env
+from harness.lim_fake import Env, find_incoming_limiter
 
 PROBES = 4
 
@@ -122,7 +124,6 @@ class Oracle:
         self.limit = init
         self.maxlimit = init
         self.cap = init
-        self.nonpos_seen = init <= 0
         self.last_admitted = -1
         self.why = None
         self.key = None
@@ -136,8 +137,6 @@ class Oracle:
         if k == 't':
             self.limit = n
             self.maxlimit = max(self.maxlimit, n)
-            if n <= 0:
-                self.nonpos_seen = True
         for e in evs:
             if e[0] in 'ER':
                 i = int(e[1:])
@@ -151,16 +150,16 @@ class Oracle:
                 self.cap = max(self.cap, self.limit)
             if e[0] == 'R' and self.limit >= 1:
                 self.fail('c13:refused-at-positive-limit', f'{e} although the limit is {self.limit}')
-        if k in 'xk' and 'B' not in evs:
-            # a lowered limit retires one excess permit per exit (decided before anybody is woken)
-            pass
-        if target_seen != self.limit:
+        # the text fixes what max_concurrent reads only for limits of at least 1 ("zero or less
+        # refuses"): a limiter that stores set_target(-1) as 0 is fine
+        if (target_seen != self.limit) if self.limit >= 1 else (target_seen > 0):
             self.fail('c13:max-concurrent', f'max_concurrent reads {target_seen}, limit in force is {self.limit}')
         if peak > self.maxlimit:
             self.fail('c13:exceeds-max-limit', f'{peak} handlers in flight, largest limit so far {self.maxlimit}')
 
     # capacity bookkeeping has to see the exit before the admissions it causes
     def pre_exit(self):
+        # a lowered limit retires one excess permit per exit
         if self.cap > self.limit:
             self.cap -= 1
 
@@ -168,11 +167,18 @@ class Oracle:
         if peak > self.cap:
             self.fail('c13:exceeds-capacity',
                       f'{peak} in flight but capacity after reductions/raises is {self.cap} (limit {self.limit})')
-        if not self.nonpos_seen and waiting and len(holders) < self.cap:
+        if waiting and len(holders) < self.cap:
             self.fail('c13:permit-lost',
-                      f'{len(waiting)} waiting although only {len(holders)} of {self.cap} permits are in use')
-        if not self.nonpos_seen and waiting and not holders:
-            self.fail('c13:starved', 'tasks wait although nobody holds a permit')
+                      f'{len(waiting)} waiting although only {len(holders)} of {self.cap} permits are in use '
+                      f'(limit {self.limit})')
+        if waiting and not holders:
+            if self.limit <= 0:
+                self.fail('c13:left-waiting-at-nonpositive-limit',
+                          f'tasks {list(waiting)} are left waiting although nobody holds a permit and the limit '
+                          f'is {self.limit}: they must be refused (ExcessiveSessionCostError), not parked')
+            else:
+                self.fail('c13:starved', f'tasks {list(waiting)} wait although nobody holds a permit '
+                                         f'(limit {self.limit})')
 
 
 def run_limiter_case(env, init, ops, tail=True):
@@ -209,8 +215,9 @@ def run_limiter_case(env, init, ops, tail=True):
         while rig.hold and guard < 200:
             do(f'x{rig.hold[0]}')
             guard += 1
-        if not orc.nonpos_seen and rig.waiting:
-            orc.fail('c13:not-served', f'tasks {rig.waiting} never admitted although every holder left')
+        if rig.waiting:
+            orc.fail('c13:not-served', f'tasks {rig.waiting} never admitted although every holder left '
+                                       f'and the limit is {rig.c.max_concurrent}')
     rig.close()
     return done, recs, orc, state
 
@@ -226,7 +233,7 @@ def applicable(state, nid):
         ops.append(f'c{waiting[0]}')
         if len(waiting) > 1:
             ops.append(f'c{waiting[-1]}')
-    ops += [f't{n}' for n in (1, 2, 3) if n != target]
+    ops += [f't{n}' for n in (0, 1, 2, 3) if n != target]
     return ops
 
 
@@ -345,40 +352,58 @@ def random_limiter_case(rng, allow_nonpos):
 
 
 # ------------------------------------------------------------------ level 2: the session
-def make_server_class(env):
-    RPCSession = env.session.RPCSession
+def make_server_class(env, kind='rpc'):
+    """kind 'rpc': RPCSession fed JSON lines; 'msg': MessageSession fed Bitcoin frames whose payload
+    is the decimal id.  The public handler hook maintains the in-flight bookkeeping."""
+    base = env.session.RPCSession if kind == 'rpc' else env.session.MessageSession
 
-    class Srv(RPCSession):
+    class Srv(base):
         rig = None
 
-        async def handle_request(self, request):
+        def on_disconnect_due_to_excessive_session_cost(self):
+            self.rig.hooks.append(self.loop.time())
+
+        async def _handle(self, i):
             rig = self.rig
-            i = request.args[0]
             rig.evs.append(f'E{i}')
-            rig.waiting.remove(i)
+            rig.started_at[i] = self.loop.time()
+            if i in rig.waiting:
+                rig.waiting.remove(i)
             rig.hold.append(i)
             rig.peak = max(rig.peak, len(rig.hold))
+            rig.on_start(i)
             try:
                 await rig.gate[i]
                 return i
             finally:
                 rig.hold.remove(i)
+
+        async def handle_request(self, request):
+            return await self._handle(request.args[0])
+
+        async def handle_message(self, message):
+            return await self._handle(int(message[1].decode()))
     return Srv
 
 
 class SessRig:
-    def __init__(self, env, init, attrs=None):
+    def __init__(self, env, init, attrs=None, kind='rpc'):
         self.env = env
-        cls = make_server_class(env)
+        self.kind_of_session = kind
+        cls = make_server_class(env, kind)
         cls.initial_concurrent = init
         for k, v in (attrs or {}).items():
             setattr(cls, k, v)
         self.proto, self.tr, self.s = env.make_session(cls, 'server')
         self.s.rig = self
+        self.conc = find_incoming_limiter(self.s)
         self.gate = {}
         self.evs = []
         self.hold = []
         self.waiting = []
+        self.hooks = []
+        self.started_at = {}
+        self.on_start = lambda i: None
         self.peak = 0
         self.received = 0
         self.released = 0
@@ -391,13 +416,16 @@ class SessRig:
         for i, is_req in items:
             self.gate[i] = self.env.loop.create_future()
             self.waiting.append(i)
-            self.kind[i] = is_req
+            self.kind[i] = is_req and self.kind_of_session == 'rpc'
             d = {'jsonrpc': '2.0', 'method': 'm', 'params': [i]}
             if is_req:
                 d['id'] = i
             msgs.append(d)
         self.received += len(items)
-        if as_batch:
+        if self.kind_of_session == 'msg':
+            framer = self.env.framing.BitcoinFramer()
+            data = b''.join(framer.frame((b'probe', str(i).encode())) for i, _r in items)
+        elif as_batch:
             data = json.dumps(msgs).encode() + b'\n'
         else:
             data = b''.join(json.dumps(m).encode() + b'\n' for m in msgs)
@@ -405,6 +433,8 @@ class SessRig:
 
     def replies(self):
         out = {}
+        if self.kind_of_session == 'msg':
+            return out
         for chunk in self.tr.out:
             for line in chunk.split(b'\n'):
                 if not line:
@@ -415,15 +445,19 @@ class SessRig:
         return out
 
 
-def run_session_case(env, init, script):
+def run_session_case(env, init, script, kind='rpc'):
     """script: list of ('recv', [(id,is_req)..], mode) with mode 'batch' (one JSON batch) / 'chunk'
     (several messages in one data_received) / 'separate'; ('fin', 'oldest'|'newest');
-    ('target', n).  Returns (ops, records, oracle); a record is None for the non-final member of
-    a group whose members the session spawns back to back in one loop run."""
-    rig = SessRig(env, init)
+    ('target', n) with any n (a limit <= 0 refuses: the session then closes and the script ends).
+    Returns (ops, records, oracle, closed); a record is None for the non-final member of a group
+    whose members the session spawns back to back in one loop run."""
+    # no cost is ever charged here, so the session never re-evaluates the limit set by the script
+    rig = SessRig(env, init, dict(error_base_cost=0.0, bw_cost_per_byte=0.0), kind=kind)
     orc = Oracle(init)
     ops, recs = [], []
-    conc = rig.s._incoming_concurrency
+    conc = rig.conc
+    closed = [False]
+    seen_hooks = [0]
 
     def begin():
         rig.evs = []
@@ -432,10 +466,27 @@ def run_session_case(env, init, script):
     def end(group, count=True):
         env.idle()
         rig.peak = max(rig.peak, len(rig.hold))
+        new_hooks = len(rig.hooks) - seen_hooks[0]
+        seen_hooks[0] = len(rig.hooks)
+        if new_hooks:
+            # the hook has no argument: the refused requests are the heads of the arrival queue
+            closed[0] = True
+            for i in rig.waiting[:new_hooks]:
+                rig.evs.append(f'R{i}')
+            del rig.waiting[:new_hooks]
         for op in group[:-1]:
             ops.append(op)
             recs.append(None)
         ops.append(group[-1])
+        if closed[0]:
+            # the session closes: handlers are cancelled, nothing else is comparable from here on
+            recs.append('closed:' + ','.join(rig.evs))
+            if orc.limit >= 1:
+                orc.fail('c13:refused-at-positive-limit',
+                         f'the disconnect hook ran {new_hooks} time(s) although the limit is {orc.limit}')
+            if any(e[0] == 'E' for e in rig.evs) and orc.limit <= 0:
+                orc.fail('c13:entered-at-nonpositive-limit', f'{rig.evs} although the limit is {orc.limit}')
+            return
         recs.append(fmt_record(rig.evs, rig.hold, rig.waiting, conc.max_concurrent))
         orc.op(group[-1], rig.evs, rig.hold, rig.waiting, rig.peak, conc.max_concurrent)
         orc.quiescent(rig.hold, rig.waiting, rig.peak)
@@ -455,10 +506,14 @@ def run_session_case(env, init, script):
         end([f'x{i}'])
 
     for step in script:
+        if closed[0]:
+            break
         if step[0] == 'recv':
             _, items, mode = step
             groups = [items] if mode in ('batch', 'chunk') else [[it] for it in items]
             for g in groups:
+                if closed[0]:
+                    break
                 begin()
                 rig.feed(g, mode == 'batch' and len(g) > 1)
                 end([f'e{i}' for i, _ in g])
@@ -470,24 +525,27 @@ def run_session_case(env, init, script):
             conc.set_target(step[1])
             end([f't{step[1]}'])
     # everybody is eventually served and answered exactly once
-    if conc.max_concurrent < 1:
+    if not closed[0] and conc.max_concurrent < 1:
+        # (the limit is <= 0 and nobody was refused yet: then nobody can be waiting - checked by
+        # the quiescence clauses - so raising it again must bring the session back to work)
         begin()
         conc.set_target(1)
         end(['t1'])
     guard = 0
-    while rig.hold and guard < 500:
+    while not closed[0] and rig.hold and guard < 500:
         finish_one(rig.hold[0])
         guard += 1
-    if rig.waiting:
-        orc.fail('c13:not-served', f'requests {rig.waiting} never handled although every handler finished')
-    rep = rig.replies()
-    for i, is_req in rig.kind.items():
-        n = len(rep.get(i, []))
-        if i not in rig.waiting and n != (1 if is_req else 0):
-            orc.fail('c13:reply-count', f'{"request" if is_req else "notification"} {i} got {n} replies')
+    if not closed[0]:
+        if rig.waiting:
+            orc.fail('c13:not-served', f'requests {rig.waiting} never handled although every handler finished')
+        rep = rig.replies()
+        for i, is_req in rig.kind.items():
+            n = len(rep.get(i, []))
+            if i not in rig.waiting and n != (1 if is_req else 0):
+                orc.fail('c13:reply-count', f'{"request" if is_req else "notification"} {i} got {n} replies')
     env.close_loop()
     env.new_loop()
-    return ops, recs, orc
+    return ops, recs, orc, closed[0]
 
 
 def run_throttle_timeout_case(env, case):
@@ -593,8 +651,115 @@ def evaluate_throttle_timeout(ctx, res, cases):
             res.nontrivial(json.dumps(c, sort_keys=True))
 
 
+def run_throttle_order_case(env, case):
+    """Arrival order under throttling.  The session's cost lies between the soft and the hard limit
+    (so every admitted request is delayed by fraction*cost_sleep) and the fraction CHANGES between
+    arrivals, while the limit itself stays at its initial value L (fractions below 1/L).  Requests
+    beyond the limit must get their slot in arrival order: when the handler of request j starts,
+    every earlier arrival that has not started yet must already hold a slot (it is sleeping in
+    it), so  running handlers + earlier arrivals not yet started  can never exceed L.
+    Oracle only (virtual time is outside the quiescent big-step model)."""
+    L, kind = case['init'], case.get('kind', 'rpc')
+    soft, hard = 100.0, 1100.0
+    attrs = dict(cost_soft_limit=soft, cost_hard_limit=hard, cost_sleep=case['sleep'],
+                 processing_timeout=100000.0, cost_decay_per_sec=0.0, error_base_cost=0.0,
+                 bw_cost_per_byte=0.0)
+    rig = SessRig(env, L, attrs, kind=kind)
+    s, conc = rig.s, rig.conc
+    key = why = None
+    stats = dict(delayed_starts=0, reorderable=0)
+
+    def fail(kk, w):
+        nonlocal key, why
+        if why is None:
+            key, why = kk, w
+
+    def on_start(j):
+        earlier = [i for i in rig.waiting if i < j]
+        if earlier:
+            stats['reorderable'] += 1
+        if conc.max_concurrent == L and len(rig.hold) + len(earlier) > L:
+            fail('c13:arrival-order',
+                 f'handler of request {j} started at t={env.loop.time()} while {len(rig.hold) - 1} other handlers '
+                 f'run and the earlier arrivals {earlier} have not started: with a limit of {L} they cannot '
+                 f'all hold a slot, so request {j} was given a slot before an earlier arrival')
+        if len(rig.hold) > L:
+            fail('c13:exceeds-max-limit', f'{len(rig.hold)} handlers in flight, limit {L}')
+    rig.on_start = on_start
+    nid = 0
+    for st in case['steps']:
+        if st[0] == 'cost':
+            x = soft + st[1] * (hard - soft) / L
+            s.bump_cost(x - s.cost)
+            s.recalc_concurrency()
+            if conc.max_concurrent != L:
+                fail('c13:max-concurrent', f'fraction {st[1]}/{L} of the soft range must leave the limit at {L}, '
+                                           f'max_concurrent reads {conc.max_concurrent}')
+        elif st[0] == 'recv':
+            rig.feed([(nid + k, True) for k in range(st[1])], False)
+            nid += st[1]
+            env.idle()
+        elif st[0] == 'advance':
+            env.advance(st[1])
+        elif st[0] == 'fin' and rig.hold:
+            rig.gate[rig.hold[0]].set_result(None)
+            env.idle()
+    guard = 0
+    env.advance(case['sleep'] * 2)
+    while (rig.hold or rig.waiting) and guard < 200:
+        if rig.hold:
+            rig.gate[rig.hold[0]].set_result(None)
+        env.advance(case['sleep'] * 2)
+        guard += 1
+    if rig.waiting:
+        fail('c13:not-served', f'requests {rig.waiting} never handled although every handler finished')
+    stats['delayed_starts'] = sum(1 for t in rig.started_at.values() if t > 0)
+    env.close_loop()
+    env.new_loop()
+    return key, why, stats
+
+
+def throttle_order_cases(rng, count):
+    out = []
+    for c in range(count):
+        L = [1, 2, 3, 1, 2][c % 5]
+        sleep = rng.choice([0.5, 2.0])
+        fr = [0.0, 0.1, 0.4, 0.8, 0.95]
+        steps = [('cost', rng.choice(fr[2:]))]
+        for _ in range(rng.randint(4, 12)):
+            r = rng.random()
+            if r < 0.4:
+                steps.append(('recv', rng.randint(1, 3)))
+            elif r < 0.6:
+                steps.append(('advance', rng.choice([0.015625, 0.0625, sleep / 4, sleep])))
+            elif r < 0.85:
+                steps.append(('cost', rng.choice(fr)))
+            else:
+                steps.append(('fin',))
+        out.append(dict(init=L, sleep=sleep, steps=steps, kind='msg' if c % 3 == 2 else 'rpc'))
+    return out
+
+
+def _to_batch(cases):
+    return [run_throttle_order_case(_env, c) for c in cases]
+
+
+def evaluate_throttle_order(ctx, res, cases):
+    results = _pmap(ctx, _to_batch, cases, chunk=20)
+    for case, (key, why, stats) in zip(cases, results):
+        c = dict(case, level='throttle-order')
+        if why:
+            res.violation(key, c, why)
+        res['evaluations'] += 1
+        res.count('throttle_order_cases')
+        res.count('throttle_order_starts_with_earlier_arrivals_pending', stats['reorderable'])
+        if stats['reorderable']:
+            res.nontrivial(json.dumps(c, sort_keys=True))
+
+
 def random_session_script(rng):
     init = rng.choice([1, 2, 3, 5, 20])
+    kind = 'msg' if rng.random() < 0.35 else 'rpc'
     script = []
     nid = 0
     for _ in range(rng.randint(2, 14)):
@@ -607,23 +772,23 @@ def random_session_script(rng):
         elif r < 0.8:
             script.append(('fin', rng.choice(['oldest', 'newest'])))
         else:
-            script.append(('target', rng.randint(1, 6)))
-    return init, script
+            script.append(('target', rng.choice([0, 0, 1, 1, 2, 3, 4, 5, 6, -1])))
+    return init, script, kind
 
 
 def _sess_batch(cases):
     out = []
-    for init, script in cases:
-        ops, recs, orc = run_session_case(_env, init, script)
-        out.append((init, script, ops, recs, orc.key, orc.why))
+    for init, script, kind in cases:
+        ops, recs, orc, closed = run_session_case(_env, init, script, kind)
+        out.append((init, script, kind, ops, recs, orc.key, orc.why, closed))
     return out
 
 
 def check_session_results(ctx, res, results):
-    lines = [fmt_case(init, ops) for init, _sc, ops, _r, _k, _w in results]
+    lines = [fmt_case(init, ops) for init, _sc, _kd, ops, _r, _k, _w, _c in results]
     model = ctx.model(lines)
-    for idx, (init, script, ops, recs, key, why) in enumerate(results):
-        case = {'level': 'session', 'init': init, 'script': script}
+    for idx, (init, script, kind, ops, recs, key, why, closed) in enumerate(results):
+        case = {'level': 'session', 'init': init, 'script': script, 'kind': kind}
         if why:
             res.violation(key, case, why)
         if model is not None:
@@ -641,14 +806,28 @@ def check_session_results(ctx, res, results):
                 merged.append(f"{','.join(acc) if acc else '-'};{rest}")
                 acc = []
             got = [r for r in recs if r is not None]
-            if merged != got or len(mrecs) != len(ops):
+            bad = len(mrecs) != len(ops) or len(merged) != len(got)
+            for g, m in zip(got, merged):
+                if g.startswith('closed:'):
+                    # the refusal closed the session (later waiters may be cancelled by the
+                    # closing session before their turn): the refusals seen must be a non-empty
+                    # prefix of the model's
+                    ge = [x for x in g[7:].split(',') if x]
+                    me = m.split(';')[0].split(',')
+                    if not ge or ge != me[:len(ge)]:
+                        bad = True
+                elif g != m:
+                    bad = True
+            if bad:
                 res.disagreement(case, ' | '.join(got), ' | '.join(merged))
         res['evaluations'] += 1
         res.count('session_cases')
+        res.count('session_cases_message_session', kind == 'msg')
+        res.count('session_cases_closed_by_refusal', closed)
         res.count('session_requests', sum(1 for o in ops if o[0] == 'e'))
         res.count('session_cases_with_queueing', any(r and ';w=-' not in r for r in recs))
         if any(r and ';w=-' not in r for r in recs):
-            res.nontrivial(('s', init, json.dumps(script)))
+            res.nontrivial(('s', init, kind, json.dumps(script)))
 
 
 # ------------------------------------------------------------------ corpus
@@ -684,12 +863,14 @@ def run(ctx):
     # that time out while throttled / queued followed by a refund and a second burst
     ntt = 20
     evaluate_throttle_timeout(ctx, res, throttle_timeout_cases(rng, ntt))
+    nto = 60
+    evaluate_throttle_order(ctx, res, throttle_order_cases(rng, nto))
     nsess = 300
     sres = _pmap(ctx, _sess_batch, [random_session_script(rng) for _ in range(nsess)], chunk=100)
     check_session_results(ctx, res, sres)
     # (c) exhaustive small scope
     # a fingerprint drift / broken proof in the quick tier explores deeper, within the quick budget
-    maxlen = (9 if full else 7) if ctx.deep and not res.failed else 6
+    maxlen = (8 if full else 7) if ctx.deep and not res.failed else 6
     total, reached = exhaustive_limiter(ctx, res, maxlen)
     res['scopes']['exhaustive_limiter'] = {'max_ops': reached, 'initial_limits': [1, 2, 3],
                                            'streams': total, 'tail': f'{PROBES} probes + drain'}
@@ -705,9 +886,13 @@ def run(ctx):
         nsess += more
         evaluate_throttle_timeout(ctx, res, throttle_timeout_cases(rng, 40))
         ntt += 40
+        more = 1500 if full else 200
+        evaluate_throttle_order(ctx, res, throttle_order_cases(rng, more))
+        nto += more
     res['scopes']['session'] = nsess
     res['scopes']['session_timeout_while_throttled'] = ntt
-    for init, script, ops, recs, _k, _w in sres[:2]:
+    res['scopes']['session_arrival_order_while_throttled'] = nto
+    for init, script, _kd, ops, recs, _k, _w, _c in sres[:2]:
         res.sample({'level': 'session', 'case': fmt_case(init, ops)[:300],
                     'impl': ' | '.join(r for r in recs if r)[:400]})
     return res.finish(RULE, exhaustive=(reached == maxlen))
@@ -720,10 +905,14 @@ def replay(ctx, case):
     _init(ctx.repo)
     if case.get('level') == 'throttle-timeout':
         evaluate_throttle_timeout(ctx, res, [{k: v for k, v in case.items() if k != 'level'}])
+    elif case.get('level') == 'throttle-order':
+        c = {k: v for k, v in case.items() if k != 'level'}
+        c['steps'] = [tuple(x) for x in c['steps']]
+        evaluate_throttle_order(ctx, res, [c])
     elif case.get('level') == 'session':
         script = [tuple(s) if not isinstance(s, tuple) else s for s in case['script']]
         script = [(s[0], [tuple(x) for x in s[1]], s[2]) if s[0] == 'recv' else tuple(s) for s in script]
-        check_session_results(ctx, res, _sess_batch([(case['init'], script)]))
+        check_session_results(ctx, res, _sess_batch([(case['init'], script, case.get('kind', 'rpc'))]))
     else:
         check_results(ctx, res, _lim_batch([(case['init'], tuple(case['ops']))]), 'replay')
     res.sample(case)
